@@ -104,12 +104,13 @@ def limit_memory(gb: int = 16):
 MAX_LEN = 110     # longer renderings add proof cost, not bracket shapes
 
 
-def gen_samples(seed: int, n: int, render=None):
+def gen_samples(seed: int, n: int, render=None, symbols=None, max_len=None):
     """Deterministic stream of (index, expression): distinct auto-evaluated trees whose rendering is at most MAX_LEN
     characters.  `index` is the draw number, so a replay can regenerate exactly that expression."""
     render = render or code_str
+    max_len = max_len or MAX_LEN
     rng = random.Random(seed)
-    gen = rc.ExprGen(rng, sample_symbols())
+    gen = rc.ExprGen(rng, symbols or sample_symbols())
     out = []
     seen = set()
     tries = 0
@@ -121,18 +122,20 @@ def gen_samples(seed: int, n: int, render=None):
                 e = gen.sample()
         except Exception:  # pylint: disable=broad-except
             continue   # SymPy refused to build it (e.g. zoo arithmetic) or took too long
-        if not isinstance(e, sympy.Expr) or e.has(sympy.zoo, sympy.nan, sympy.oo, -sympy.oo, sympy.E):
+        if not isinstance(e, sympy.Expr) or e.has(sympy.zoo, sympy.nan, sympy.oo, -sympy.oo):
             continue
         if e.is_Number or e.is_Symbol:
             continue
         if any(abs(f._mpf_[2] + f._mpf_[3]) > 400 for f in e.atoms(sympy.Float)):  # pylint: disable=protected-access
             continue   # astronomically large/small float produced by evaluation
+        if any(p.exp.is_Integer and abs(p.exp) > 12 for p in e.atoms(sympy.Pow)):
+            continue   # x^343: same printer path as x^3, but `ring` would have to expand it
         k = sympy.srepr(e)
         if k in seen:
             continue
         seen.add(k)
         try:
-            if len(render(e)) > MAX_LEN:
+            if len(render(e)) > max_len:
                 continue
         except Exception:  # pylint: disable=broad-except
             pass            # a printer exception is reported by the caller
@@ -323,6 +326,10 @@ def dev_validate(ctx, cases):
         if c["status"] == "lemma":
             print("   L:", c["lemma"].statement)
     lem = [c for c in cases if c["status"] == "lemma"]
+    for c in lem:
+        lm = c["lemma"]
+        with open(f"/tmp/dev/{lm.name}.v", "w", encoding="utf-8") as fh:
+            fh.write(f"{rc.PREAMBLE}\nLemma {lm.name} : {lm.statement}.\nProof.\n{lm.proof}\nQed.\n")
     res = coqrun.prove_lemmas(ctx, "c17", rc.PREAMBLE, [c["lemma"] for c in lem], per_file=1)
     for c in lem:
         print(c["key"], "->", res[c["lemma"].name][-700:])
